@@ -4,6 +4,7 @@ package main
 
 import (
 	"encoding/base64"
+	"encoding/json"
 	"fmt"
 	"os"
 	"os/exec"
@@ -201,10 +202,21 @@ func c16Body(c *Check) {
 	}
 	words = append(words, nw{"<a>\x00x\x00</a>", []int{1, 3}}, nw{"[\x001\x00]", []int{6}}, nw{"{\"a\":\x001\x00}", []int{6}},
 		nw{"a{\x00color:red\x00}", []int{4, 5}}, nw{"@media screen{\x00a{color:red}\x00}", []int{4, 5}}, nw{"a{&:hover{\x00color:red\x00}}", []int{4, 5}})
+	// words on which the TypeScript parser backtracks (trial parses that contain further trial parses): depths 16, 64
+	// and 400 only - without memoisation depth 64 would mean 2^64 trial parses, which the 120 s hang oracle reports
+	backtrack := map[string]bool{}
+	for _, a := range []string{"a?(b):c=>", "a?(b):(c):d=>", "a?async(b):c=>", "a?<T>(b):c=>", "(a):b=>", "a<b>(", "<a>(b)=>", "a?(b,c):d=>{", "x as a<b<", "a?(b):c=>d?(e):"} {
+		words = append(words, nw{a, []int{2, 3}})
+		backtrack[a] = true
+	}
 	c.ForEach(uint64(len(words)), func(w int, i uint64) {
 		wd := words[i]
 		for _, li := range wd.li {
 			var prev time.Duration
+			ns := ns
+			if backtrack[wd.w] {
+				ns = []int{16, 64, 400}
+			}
 			for _, n := range ns {
 				css := li == 4 || li == 5
 				balanced := strings.Contains(wd.w, "\x00")
@@ -247,6 +259,38 @@ func c16Body(c *Check) {
 			}
 		}
 	})
+	// (d2) CSS nesting lowered for an old browser multiplies selectors: m parents x k ampersands (m^k combinations) and
+	// selector lists nested d deep (2^d); esbuild has an expansion limit, which must also bound the time
+	{
+		var ins []string
+		for _, m := range []int{2, 3, 10} {
+			sel := []string{}
+			for i := 0; i < m; i++ {
+				sel = append(sel, fmt.Sprintf(".p%d", i))
+			}
+			for k := 1; k <= 14; k++ {
+				ins = append(ins, strings.Join(sel, ",")+"{"+strings.TrimSpace(strings.Repeat("& ", k))+"{color:red}}")
+				ins = append(ins, strings.Join(sel, ",")+"{"+strings.TrimSuffix(strings.Repeat(":is(&) ", k), " ")+"{color:red}}")
+			}
+		}
+		for _, d := range []int{2, 4, 8, 16, 20, 24, 32} {
+			ins = append(ins, strings.Repeat(".a,.b{& .c,& .d{", d/2)+"color:red"+strings.Repeat("}}", d/2))
+			ins = append(ins, strings.Repeat(".a,.b{.c &,.d &{", d/2)+"color:red"+strings.Repeat("}}", d/2))
+		}
+		lower := api.TransformOptions{Engines: []api.Engine{{Name: api.EngineChrome, Version: "80"}}}
+		c.ForEach(uint64(len(ins)), func(w int, i uint64) {
+			for _, l := range []api.Loader{api.LoaderCSS, api.LoaderLocalCSS} {
+				r := c16Try(ins[i], l, lower)
+				c.Eval(1)
+				if r.hung {
+					c.Violation("hang:css-nesting-expansion:"+ins[i], map[string]interface{}{"kind": "hang (>120s)", "input": ins[i], "options": "chrome80", "source": "css-nesting-expansion"})
+				} else if r.bad != "" {
+					c.Violation("internal:css-nesting-expansion:"+ins[i], map[string]interface{}{"kind": "internal error / recovered panic", "message": trunc(r.bad, 600), "input": ins[i], "source": "css-nesting-expansion"})
+				}
+				c.Sub("css_nesting_expansion_cases", 1)
+			}
+		})
+	}
 	// (e) source map payloads
 	maps := []string{}
 	alphaM := []string{"A", "C", "D", "g", ",", ";", "!", "AAAA", "z"}
@@ -389,13 +433,64 @@ func c16Configs(c *Check) {
 			}
 		}
 	}
+	// pattern-valued settings: package.json sideEffects globs, exports/imports subpath patterns, browser map keys and
+	// tsconfig paths patterns are turned into regular expressions or matched by prefix/suffix arithmetic. All words over a
+	// glob/regexp metacharacter alphabet (quick <= 2, thorough <= 3 symbols), and all tsconfig paths patterns over {a, b, *}
+	// of <= 4 (thorough 5) symbols against imports whose length is below prefix + suffix.
+	{
+		alpha := []string{"*", "**", "?", "[", "]", "{", "}", "(", ")", "\\", ".", "/", "a", "-", "!", "^", "$", "+", "|", ","}
+		maxLen := 2
+		if c.Tier != "quick" {
+			maxLen = 3
+		}
+		var words []string
+		var rec func(cur string, n int)
+		rec = func(cur string, n int) {
+			if n > 0 {
+				words = append(words, cur)
+			}
+			if n == maxLen {
+				return
+			}
+			for _, a := range alpha {
+				rec(cur+a, n+1)
+			}
+		}
+		rec("", 0)
+		q := func(s string) string { b, _ := json.Marshal(s); return string(b) }
+		for _, w := range words {
+			cases = append(cases, cfgCase{pkg: "{\"name\":\"pkg\",\"sideEffects\":[" + q(w) + "," + q("./"+w) + "],\"browser\":{" + q("./"+w) + ":false," + q(w) + ":\"./x.js\"}}"})
+			cases = append(cases, cfgCase{pkg: "{\"name\":\"pkg\",\"exports\":{\".\":\"./index.js\"," + q("./"+w) + ":\"./x.js\",\"./s/*\":" + q("./"+w) + "},\"imports\":{" + q("#"+w) + ":\"./x.js\"}}"})
+		}
+		pl := 4
+		if c.Tier != "quick" {
+			pl = 5
+		}
+		var pats []string
+		var rec2 func(cur string, n int)
+		rec2 = func(cur string, n int) {
+			if n > 0 && strings.Count(cur, "*") <= 1 {
+				pats = append(pats, cur)
+			}
+			if n == pl {
+				return
+			}
+			for _, a := range []string{"a", "b", "*"} {
+				rec2(cur+a, n+1)
+			}
+		}
+		rec2("", 0)
+		for _, pt := range pats {
+			cases = append(cases, cfgCase{ts: "{\"compilerOptions\":{\"baseUrl\":\".\",\"paths\":{" + q(pt) + ":[\"./local\",\"./x/*\"]}}}"})
+		}
+	}
 	root := scratchRoot("c16cfg")
 	defer os.RemoveAll(root)
 	c.ForEach(uint64(len(cases)), func(w int, i uint64) {
 		cs := cases[i]
 		dir := filepath.Join(root, fmt.Sprintf("c%d", i))
 		files := map[string]string{
-			"entry.tsx":                     "import 'pkg'; import 'pkg/sub'; import x from '#x'; import './local'; export class K { x = 1; @dec y } export const j = <a/>; enum E { A }",
+			"entry.tsx":                     "import 'pkg'; import 'pkg/sub'; import x from '#x'; import './local'; import 'pkg/s/a'; import 'a'; import 'b'; import 'ab'; import 'ba'; import 'aba'; import 'bab'; import 'abab'; export class K { x = 1; @dec y } export const j = <a/>; enum E { A }",
 			"local.ts":                      "export let a = 1",
 			"node_modules/pkg/index.js":     "module.exports = 1",
 			"node_modules/pkg/x.js":         "export default 2",
